@@ -277,6 +277,17 @@ var stackTable = []stackRow{
 		r.Add(devName, onoffpb.WrapApi(onoffpb.NewModelServer(m)))
 		return onoffpb.WrapApi(r), m
 	}, "configured"},
+	{"electricpb", "NewModelServer", func() (any, any) {
+		// UpdateActiveMode selects one of the model's modes by id: the default model has none (every Update is
+		// rejected), this one has a mode for every id of the generator's string pool but "e"
+		mode := func(id string, normal bool, amps float32) *traits.ElectricMode {
+			return &traits.ElectricMode{Id: id, Title: "mode " + id, Normal: normal, Segments: []*traits.ElectricMode_Segment{{Magnitude: amps}}}
+		}
+		m := electricpb.NewModel(electricpb.WithInitialMode(mode("a", true, 12.5), mode("b", false, 25), mode("c", false, 37.5), mode("d", false, 50)))
+		r := electricpb.NewApiRouter()
+		r.Add(devName, electricpb.WrapApi(electricpb.NewModelServer(m)))
+		return electricpb.WrapApi(r), m
+	}, "configured"},
 	// ---- a keyed model that starts with records and an armed collector (see rowExtras) -------------------------
 	{"hailpb", "NewModelServer", func() (any, any) {
 		var opts []resource.Option // default keep-alive (30 s); the collector's ticket is primed and never drawn by a Create
